@@ -34,6 +34,8 @@ class FnContract:
         self.known = kw.pop('known', [])            # except_known carve-outs
         self.terminates = kw.pop('terminates', None)
         self.lemmas = kw.pop('lemmas', [])            # proved at every normal exit, before ensures; may name locals
+        self.stable = kw.pop('stable', [])            # closures: reflexive-transitive two-state clauses (x == old(x), ...):
+                                                      # proved as postconditions, assumed across a callee that calls the closure
         self.ghost_code = kw.pop('ghost_code', {})    # statement anchor (unparsed) -> ['ghost = expr', ...] run after it
         self.calls = kw.pop('calls', {})              # opaque callables held in locals: name -> {'requires': [...], 'returns': T}
         self.ghost_update = kw.pop('ghost_update', [])   # closures: ghost updates the callee applies after each call
